@@ -8,7 +8,6 @@ import (
 	"go/types"
 	"maps"
 	"slices"
-	"sort"
 	"strconv"
 	"strings"
 
@@ -1118,32 +1117,34 @@ func (fc *funcConverter) convertToStmts(ssaFunc *ssa.Function) ([]ast.Stmt, erro
 		}
 	}
 
-	groupedVar := make(map[types.Type][]string)
-	for varName, varType := range f.Vars {
-		exists := false
-		for groupedType, names := range groupedVar {
-			if types.Identical(varType, groupedType) {
-				groupedVar[groupedType] = append(names, varName)
-				exists = true
-				break
-			}
+	// Group the variables by type, visiting them in name order and keeping the
+	// groups in first-seen order, so that the declarations do not follow map order.
+	type varGroup struct {
+		typ   types.Type
+		names []string
+	}
+	var groupedVar []*varGroup
+	for _, varName := range slices.Sorted(maps.Keys(f.Vars)) {
+		varType := f.Vars[varName]
+		idx := slices.IndexFunc(groupedVar, func(g *varGroup) bool {
+			return types.Identical(varType, g.typ)
+		})
+		if idx < 0 {
+			idx = len(groupedVar)
+			groupedVar = append(groupedVar, &varGroup{typ: varType})
 		}
-		if !exists {
-			groupedVar[varType] = []string{varName}
-		}
+		groupedVar[idx].names = append(groupedVar[idx].names, varName)
 	}
 	var specs []ast.Spec
-	for varType, varNames := range groupedVar {
-		typeExpr, err := fc.tc.Convert(varType)
+	for _, group := range groupedVar {
+		typeExpr, err := fc.tc.Convert(group.typ)
 		if err != nil {
 			return nil, err
 		}
 		spec := &ast.ValueSpec{
 			Type: typeExpr,
 		}
-
-		sort.Strings(varNames)
-		for _, name := range varNames {
+		for _, name := range group.names {
 			spec.Names = append(spec.Names, ast.NewIdent(name))
 		}
 		specs = append(specs, spec)
